@@ -116,6 +116,20 @@ def run(ctx):
     call_fn, call_site, func_src = dynamic_sites[0]
     call_node = cfg.node_of(call_site)
 
+    # the helper objects an expression reaches without a Call node (Type.<t>.<attr> comparisons unroll values, r.<f> reads): they invoke nothing
+    # that is a runtime value - a callee that is a local variable (other than a parameter: the operator handed in by the comparison methods) would
+    # call a method of a stored value although the expression contains no call at all
+    for cq in ("flow.record.selector.TypeMatcherInstance", "flow.record.selector.TypeMatcher", "flow.record.selector.WrappedRecord"):
+        kc = prog.cls(cq)
+        for fn in funcs_in(kc):
+            params_k = set(func_params(fn))
+            locals_k = {x.id for n in walk_no_nested(fn) if isinstance(n, (ast.Assign, ast.For, ast.comprehension, ast.AugAssign, ast.NamedExpr))
+                        for t in (n.targets if isinstance(n, ast.Assign) else [n.target]) for x in ast.walk(t) if isinstance(x, ast.Name)} - params_k
+            for c in calls_in(fn):
+                if isinstance(c.func, ast.Name) and c.func.id in locals_k:
+                    ctx.fail("R9.1", f"{cq.split('.')[-1]}.{fn.name}:calls-runtime-value:{c.func.id}", f"`{norm(c)[:50]}` invokes the runtime value held in `{c.func.id}`: comparing or iterating a "
+                             "typed matcher then calls a method of a stored field value, with no call in the expression for the sandbox to vet", c,
+                             key=f"R9.1:{cq.split('.')[-1]}.{fn.name}:calls-runtime-value")
     # ------------------------------------------------------------------ R9.2 check/use coherence
     ctx.rule("R9.2", "the call predicate tests a name string that determines the invoked object: the callee expression is the "
                      "Name/Attribute chain that resolve_attr_path spells out, and resolve_attr_path raises for any other root")
